@@ -18,16 +18,24 @@
      C04_cube_table  a table whose dimensions are the generator counts of the cube has Euler polynomial
                      kh_euler; hence C04_identity: sum (-1)^i q^j rank H^{i,j} = jones_model for every such
                      complex, whatever the ranks of its differentials
+     C04_mirror      jones_model (mirror l) = option_map pinv (jones_model l): the polynomial of the mirror
+                     diagram is the polynomial of the diagram with q -> q^-1, and the model panics on mirror l
+                     exactly when it panics on l (C04_mirror_returns).  [pinv] (reverse the list, negate the
+                     exponents) is the substitution q -> q^-1: coeff (pinv p) e = coeff p (-e), canonical forms are
+                     preserved without re-canonicalisation, it is an involutive ring homomorphism for
+                     padd (second argument canonical) / pmul / ppow (theorems C04_subst_xxx).  Link level:
+                     circles (mirror l) s = circles l (map negb s) for every state s (C04_mirror_state);
+                     per state: C04_mirror_term
+     C04_relabel     jones_model (relabel rho l) = jones_model l for every rho injective on the labels of l
    STAGED / not proved here:
-     - C04_mirror (jones_model (mirror l) = jones_model l with q -> q^-1): covered by the `jinv mirror` cases
-       of the correspondence run (implementation and model);
      - invariance under isotopy moves is a theorem of knot theory; covered by `jinv same` cases on moved
-       diagrams (Reidemeister I kinks, braid-word moves before closure, relabelling, reordering);
+       diagrams (Reidemeister I kinks, braid-word moves before closure, reordering);
      - that the library's homology ranks are those of a complex with the cube's dimension table is the
        content of C01; here the implementation's ranks enter through the differential run (EULER-OK). *)
 From Coq Require Import List Arith Bool ZArith.
 Require Import Yui.Model.Link Yui.Model.Jones.
 Require Import Yui.Proofs.C04Poly Yui.Proofs.C04Euler Yui.Proofs.C04Homology.
+Require Import Yui.Proofs.C18Signs Yui.Proofs.C04Mirror Yui.Proofs.C04Relabel.
 Import ListNotations.
 Local Open Scope Z_scope.
 
@@ -81,6 +89,76 @@ Theorem C04_identity : forall l gens J i0 tbl,
 Proof. exact euler_identity. Qed.
 Print Assumptions C04_identity.
 
+(* --- the mirror rule ----------------------------------------------------------------------------- *)
+(* the substitution q -> q^-1 on canonical Laurent polynomials: semantics, canonical forms, homomorphism *)
+Theorem C04_subst_semantics : forall p e, coeff (pinv p) e = coeff p (- e).
+Proof. exact coeff_pinv. Qed.
+Print Assumptions C04_subst_semantics.
+
+Theorem C04_subst_canonical : forall p, canon p -> canon (pinv p).
+Proof. exact pinv_canon. Qed.
+Print Assumptions C04_subst_canonical.
+
+Theorem C04_subst_hom :
+  (forall p q, canon q -> pinv (padd p q) = padd (pinv p) (pinv q)) /\
+  (forall p q, pinv (pmul p q) = pmul (pinv p) (pinv q)) /\
+  (forall p n, pinv (ppow p n) = ppow (pinv p) n) /\
+  pinv pone = pone /\ (forall c, pinv (pconst c) = pconst c) /\ (forall k, pinv (qpow k) = qpow (- k)) /\
+  pinv q0 = q0 /\ (forall p, pinv (pinv p) = p).
+Proof.
+  exact (conj pinv_padd (conj pinv_pmul (conj pinv_ppow (conj pinv_pone (conj pinv_pconst (conj pinv_qpow
+          (conj pinv_q0 pinv_involutive))))))).
+Qed.
+Print Assumptions C04_subst_hom.
+
+(* resolving the mirror diagram by s = mirror of resolving the diagram by the complemented state; the
+   circle count does not see the remaining crossing types *)
+Theorem C04_mirror_resolve : forall s l,
+  resolved_by (mirror l) s = option_map mirror (resolved_by l (map negb s)).
+Proof. exact resolved_by_mirror. Qed.
+Print Assumptions C04_mirror_resolve.
+
+Theorem C04_mirror_state : forall l s, circles (mirror l) s = circles l (map negb s).
+Proof. exact circles_mirror. Qed.
+Print Assumptions C04_mirror_state.
+
+(* one state (w = weight of the complemented state, n+ + n- crossings): prefactor and term of the mirror
+   diagram at q^e against prefactor and term of the diagram at q^-e *)
+Theorem C04_mirror_term : forall np nn w r e, (w <= np + nn)%nat ->
+  sgn_nat np * coeff (jones_term (np + nn - w) r) (e - (Z.of_nat nn - 2 * Z.of_nat np)) =
+  sgn_nat nn * coeff (jones_term w r) (- e - (Z.of_nat np - 2 * Z.of_nat nn)).
+Proof. exact mirror_term. Qed.
+Print Assumptions C04_mirror_term.
+
+(* the sum over all 2^n states is invariant under complementing the states *)
+Theorem C04_state_reindex : forall n (f : list bool -> Z),
+  zsum (fun s => f (map negb s)) (all_states n) = zsum f (all_states n).
+Proof. exact zsum_all_states_compl. Qed.
+Print Assumptions C04_state_reindex.
+
+(* THE MIRROR RULE, for every diagram, as options *)
+Theorem C04_mirror : forall l, jones_model (mirror l) = option_map pinv (jones_model l).
+Proof. exact jones_mirror. Qed.
+Print Assumptions C04_mirror.
+
+Theorem C04_mirror_returns : forall l, jones_model (mirror l) = None <-> jones_model l = None.
+Proof. exact jones_mirror_none. Qed.
+Print Assumptions C04_mirror_returns.
+
+Theorem C04_mirror_coeff : forall l p, jones_model l = Some p ->
+  exists p', jones_model (mirror l) = Some p' /\ canon p' /\ forall e, coeff p' e = coeff p (- e).
+Proof. exact jones_mirror_coeff. Qed.
+Print Assumptions C04_mirror_coeff.
+
+Theorem C04_mirror_euler : forall l, kh_euler (mirror l) = option_map pinv (kh_euler l).
+Proof. exact kh_euler_mirror. Qed.
+Print Assumptions C04_mirror_euler.
+
+(* --- relabelling of the edges -------------------------------------------------------------------- *)
+Theorem C04_relabel : forall rho l, inj_on rho (edge_labels l) -> jones_model (relabel rho l) = jones_model l.
+Proof. exact jones_relabel. Qed.
+Print Assumptions C04_relabel.
+
 (* --- non-vacuity --------------------------------------------------------------------------------- *)
 Definition ex_trefoil : link := map (fun x => match x with (a, b, c, d) => from_pd a b c d end)
   [(1,4,2,5); (3,6,4,1); (5,2,6,3)]%nat.
@@ -88,6 +166,22 @@ Example C04_trefoil :
   jones_model ex_trefoil = Some [(-9, -1); (-5, 1); (-3, 1); (-1, 1)] /\
   option_map (@length (Z * Z)) (kh_gens ex_trefoil) = Some 30%nat.
 Proof. vm_compute. auto. Qed.
+(* the mirror rule on the trefoil: both sides are defined and the polynomial is not symmetric *)
+Example C04_trefoil_mirror :
+  jones_model (mirror ex_trefoil) = Some [(1, 1); (3, 1); (5, 1); (9, -1)] /\
+  option_map pinv (jones_model ex_trefoil) = Some [(1, 1); (3, 1); (5, 1); (9, -1)] /\
+  jones_model (mirror ex_trefoil) <> jones_model ex_trefoil.
+Proof. vm_compute. repeat split; auto. discriminate. Qed.
+(* relabelling by an injective map that changes every label *)
+Example C04_trefoil_relabel :
+  inj_on (fun e => 2 * e + 7)%nat (edge_labels ex_trefoil) /\
+  relabel (fun e => 2 * e + 7)%nat ex_trefoil <> ex_trefoil /\
+  jones_model (relabel (fun e => 2 * e + 7)%nat ex_trefoil) = Some [(-9, -1); (-5, 1); (-3, 1); (-1, 1)].
+Proof.
+  split; [intros a b _ _ H; apply (f_equal (fun x => (x - 7) / 2)%nat) in H;
+          rewrite !Nat.add_sub, !(Nat.mul_comm 2), !Nat.div_mul in H by discriminate; exact H|].
+  split; [vm_compute; discriminate | vm_compute; reflexivity].
+Qed.
 (* a one-crossing diagram of the unknot (positive kink): its cube has 4 + 2 generators; a bigraded table
    on these generators with differentials of rank 1 in q-degrees 1 and 3 - the hypotheses of C04_identity
    hold and the conclusion is q^-1 + q *)
